@@ -135,20 +135,30 @@ impl GaloisTool {
         }
     }
 
+    /// verification accessor: indices of the permutation tables generated so far (takes the read lock)
+    #[cfg(feature = "verif")]
+    pub fn verif_filled_tables(&self) -> Vec<usize> {
+        let t = self.permutation_tables.read().unwrap_or_else(|e| e.into_inner());
+        (0..t.len()).filter(|&i| !t[i].is_empty()).collect()
+    }
+
     #[inline]
     pub fn apply_ntt(&self, operand: &[u64], galois_elt: usize, result: &mut [u64]) {
         let index = Self::get_index_from_elt(galois_elt);
 
+        #[cfg(feature = "verif")] crate::verif::sched::yield_at(10);
         // Acquire lock
         let need_to_generate = {
             let tables = self.permutation_tables.read().unwrap();
             (*tables)[index].is_empty()
         };
         if need_to_generate {
+            #[cfg(feature = "verif")] crate::verif::sched::yield_at(11);
             let mut tables = self.permutation_tables.write().unwrap();
             (*tables)[index] = self.generate_table_ntt(galois_elt);
         }
 
+        #[cfg(feature = "verif")] crate::verif::sched::yield_at(12);
         // Acquire read
         let reader = self.permutation_tables.read().unwrap();
         let table = &(*reader)[index];
